@@ -69,6 +69,30 @@ fn collapse(ctx: &Ctx, r: &mut Report) {
 			}
 			Err(pn) => r.violate(&format!("C17|Sequence::collapse_timeframe|panic:{}", pn.class()), &pn.msg, || json!({"period": p})),
 		}
+		// sequences whose length is around one or two periods (an exact group must collapse to one candle)
+		for len in [0usize, 1, p.saturating_sub(1), p, p + 1, 2 * p - 1, 2 * p, 2 * p + 1] {
+			if len > cs.len() {
+				continue;
+			}
+			let short = &cs[..len];
+			for continuous in [false, true] {
+				match guard(|| Sequence::collapse_timeframe(&short, p, continuous)) {
+					Ok(b) => {
+						r.eval(1);
+						let want = if continuous { (len + 1).saturating_sub(p) } else { len / p };
+						let first_ok = b.first().map_or(true, |o| {
+							let w = &short[..p];
+							o.open.to_bits() == w[0].open.to_bits() && o.close.to_bits() == w[p - 1].close.to_bits() && o.high.to_bits() == w.iter().map(|c| c.high).fold(V::NEG_INFINITY, V::max).to_bits() && o.low.to_bits() == w.iter().map(|c| c.low).fold(V::INFINITY, V::min).to_bits()
+						});
+						if b.len() != want || !first_ok {
+							r.violate("C17|Sequence::collapse_timeframe|short-sequence", "the batch collapse of a sequence about as long as the period has the wrong number of candles or a wrong first candle", || json!({"period": p, "len": len, "continuous": continuous, "got": b.len(), "want": want}));
+						}
+					}
+					Err(pn) => r.violate(&format!("C17|Sequence::collapse_timeframe|panic:{}", pn.class()), &pn.msg, || json!({"period": p, "len": len})),
+				}
+			}
+		}
+		r.cell("collapse:short-sequences");
 		if p <= 64 {
 			if let Ok(sl) = guard(|| Sequence::collapse_timeframe(&cs, p, true)) {
 				r.eval(sl.len() as u64);
@@ -306,6 +330,12 @@ fn renko_case(b: f64, source: Source, seed: u64, steps: usize, r: &mut Report) {
 		}
 		if announced == 0 {
 			events[1] += 1;
+			// a step without bricks has no direction
+			if let Ok((ri, fa, sg)) = guard(|| (out.is_rising(), out.is_falling(), out.sign())) {
+				if ri || fa || sg != 0 {
+					r.violate("C17|RenkoOutput|direction-of-empty-step", "a step that emitted no brick reports a direction (is_rising / is_falling / sign)", || json!({"case": case("empty-step"), "is_rising": ri, "is_falling": fa, "sign": sg}));
+				}
+			}
 			continue;
 		}
 		// bricks: one direction, contiguous, equally sized relative to the base, finite
